@@ -121,8 +121,11 @@ class SignAuthorized(Contract):
 
     def pre_path(key_id): return path_wf(key_id)
     # what the validators establish for a well-formed request (C01's hypothesis; C03 needs it proved at the call)
+    @only("C03")
     def pre_input_index(input_index): return 0 <= input_index and input_index < 4294967296
+    @only("C03", "C02")
     def pre_hex(rsk_tx_receipt, btc_tx): return is_hex(rsk_tx_receipt) and is_hex(btc_tx)
+    @only("C03")
     def pre_segwit_fields(sighash_computation_mode, witness_script, outpoint_value):
         if sighash_computation_mode.netvalue == 1:
             if is_none(witness_script) or is_none(outpoint_value):
@@ -130,6 +133,7 @@ class SignAuthorized(Contract):
             return (is_hex(witness_script) and 0 <= outpoint_value and outpoint_value < 18446744073709551616
                     and len(unhex(witness_script)) < 65000)
         return is_none(witness_script) and is_none(outpoint_value)
+    @only("C03")
     def pre_tx_size(btc_tx): return len(unhex(btc_tx)) < 4294967289
     requires = [pre_path, pre_input_index, pre_hex, pre_segwit_fields, pre_tx_size]
 
